@@ -142,10 +142,39 @@ def inline_call(caller, bi, callee):
                 const_params[L0 + pl] = a
     blk["term"] = {"k": "goto", "target": B0, "span": span, "inlined_call": callee["id"]}
     in_cleanup = blk["cleanup"]
+    # closures passed to a generic helper: `helper(|| user(..))` calls `f()` on a type parameter inside the helper; once the helper is
+    # inlined the closure that runs is known, so the call is devirtualised to that closure's body
+    closure_params = {}
+    for k, a in enumerate(t["args"]):
+        pl = a.get("move") or a.get("copy")
+        if pl and not pl["proj"]:
+            head = caller["locals"][pl["local"]].get("head", "") if pl["local"] < L0 else ""
+            if head.startswith("closure:"):
+                closure_params[L0 + 1 + k] = head[len("closure:"):]
     for cb in callee["blocks"]:
         nb = _shift(cb, L0, B0, P0)
         if const_params:
             _subst_consts(nb, const_params)
+        if closure_params and nb["term"]["k"] == "call" and (nb["term"].get("callee") or {}).get("kind") == "param_trait_method" \
+                and (nb["term"]["callee"].get("trait") or "").endswith(("ops::FnOnce", "ops::FnMut", "ops::Fn")) and nb["term"]["args"]:
+            a0 = nb["term"]["args"][0].get("move") or nb["term"]["args"][0].get("copy")
+            src = a0["local"] if a0 and not a0["proj"] else None
+            hops = 0
+            while src is not None and src not in closure_params and hops < 6:
+                hops += 1
+                nxt = None
+                for st in nb["stmts"]:
+                    if st["k"] == "assign" and st["dst"]["local"] == src and not st["dst"]["proj"]:
+                        rv = st["rv"]
+                        pl2 = (rv.get("use") or {}).get("move") or (rv.get("use") or {}).get("copy") or rv.get("ref")
+                        if pl2 and not [e for e in pl2["proj"] if e != "deref"]:
+                            nxt = pl2["local"]
+                src = nxt
+            if src in closure_params:
+                cid = closure_params[src]
+                old = nb["term"]["callee"]
+                nb["term"]["callee"] = {"def": cid, "resolved": cid, "path": cid, "crate": "flurry", "name": "{closure}", "substs": [],
+                                        "kind": "local", "devirtualized_from": old.get("path")}
         if in_cleanup:
             nb["cleanup"] = True
         ct = nb["term"]
